@@ -1310,7 +1310,26 @@ class Interp(Analyzer):
                 for n, v in zip(names, ga):
                     if not n.startswith("'") and v != "'_":
                         sub[n] = self.subst_ty(v, frame) if frame is not None else v
+            elif ga and c.get('trait') and any(not n.startswith("'") for n in names):
+                # trait method resolved to a generic impl (`impl<'a, T> Trait for X<'a, T>`): the call only carries the Self
+                # type; bind the impl's type parameters by matching the impl's self type against it
+                im = self._impl_of(body.raw_path)
+                if im is not None:
+                    self_ty = self.subst_ty(ga[0], frame) if frame is not None else ga[0]
+                    b = {}
+                    if _unify_ty(im['self_ty'], self_ty, set(n for n in names if not n.startswith("'")), b):
+                        sub.update(b)
         return sub
+
+    def _impl_of(self, raw_path):
+        idx = self.__dict__.get('_impl_index')
+        if idx is None:
+            idx = {}
+            for im in self.prog.impls:
+                for it in im.get('items', []):
+                    idx[it['path']] = im
+            self.__dict__['_impl_index'] = idx
+        return idx.get(raw_path)
 
     def havoc_call(self, t, args, frame, st, name):
         """unknown callee: results are unconstrained; memory reachable through `&mut` arguments is forgotten"""
@@ -1696,6 +1715,36 @@ def analyze_async_entry(an, body, subst=None, setup=None):
     an._ctr = 0
     r = an.call_body(l[0], [rv, TOP], fr, out, dict(fr.subst), site='await')
     return fr, out
+
+
+def _unify_ty(pat, ty, params, out):
+    """match the type pattern `pat` (mentions the generic parameter names in `params`) against the concrete type string"""
+    from .absint import split_generic_args, adt_head_and_args
+    import re as _re
+    pat = _re.sub(r"'[a-z_]+\\s*", '', pat).strip()
+    ty = _re.sub(r"'[a-z_]+\\s*", '', ty).strip()
+    if pat in params:
+        if out.get(pat, ty) != ty:
+            return False
+        out[pat] = ty
+        return True
+    if pat.startswith('&') and ty.startswith('&'):
+        p2, t2 = pat[1:].strip(), ty[1:].strip()
+        if p2.startswith('mut ') != t2.startswith('mut '):
+            return False
+        if p2.startswith('mut '):
+            p2, t2 = p2[4:], t2[4:]
+        return _unify_ty(p2, t2, params, out)
+    try:
+        hp, ap = adt_head_and_args(pat)
+        ht, at = adt_head_and_args(ty)
+    except Exception:
+        return pat == ty
+    ap = [a for a in ap if a.strip() and not a.strip().startswith("'")]
+    at = [a for a in at if a.strip() and not a.strip().startswith("'")]
+    if hp != ht or len(ap) != len(at):
+        return pat.replace(' ', '') == ty.replace(' ', '')
+    return all(_unify_ty(x, y, params, out) for x, y in zip(ap, at))
 
 
 DIVERGE = ('diverge',)
